@@ -96,7 +96,9 @@ def gen_request(rng, sys, pop, year):
         if u == "eternity" and rng.random() < 0.3:
             p = _period_for(rng, "month", year)          # stored under eternity all the same
         if rng.random() < 0.04:
-            p = _period_for(rng, rng.choice(["month", "year", "eternity"]), year)   # maybe a mismatch
+            # maybe a mismatch (not the eternity period for a variable with an end date: computing
+            # `period.start.date` raises ValueError there, which Engine.set_input does not model)
+            p = _period_for(rng, rng.choice(["month", "year"] + ([] if v.get("end") else ["eternity"])), year)
         vals = rules.input_values(rng, v, n if rng.random() > 0.03 else n + 1)
         return ["set", i, p, vals]
     if r < 0.62:
@@ -173,7 +175,7 @@ def gen_case(rng, k):
 
 
 def generate(rng, tier):
-    n = {"quick": 360, "escalated": 1500, "thorough": 8000}[tier]
+    n = {"quick": 360, "escalated": 800, "thorough": 8000}[tier]
     return [gen_case(rng, k) for k in range(n)]
 
 
@@ -435,10 +437,11 @@ def obs_for_coq(case, obs):
 def oracle(case, obs):
     if obs == "skip" or isinstance(obs, Err):
         return None
+    if obs["interference"]:
+        extra = f" [also: {len(obs['checks'])} identity check(s) failed, first: {obs['checks'][0]}]" if obs["checks"] else ""
+        return obs["interference"] + extra
     if obs["checks"]:
         return obs["checks"][0].split(": ", 1)[1] + f" [{obs['checks'][0].split(':')[0]}; {len(obs['checks'])} check(s) failed]"
-    if obs["interference"]:
-        return obs["interference"]
     return None
 
 
@@ -477,8 +480,20 @@ def classify(case, obs):
     return "+".join(tags)
 
 
+def _failure_class(case):
+    try:
+        msg = oracle(case, run_impl(case))
+    except Exception:  # noqa: BLE001
+        return None
+    return msg.split(":")[0] if msg else None
+
+
 def shrink(case, still_fails):
-    """drop operations (keeping simulation numbers meaningful) while the failure persists"""
+    """drop operations (clones are kept, so simulation numbers keep their meaning) while the
+    oracle keeps failing in the same way (interference stays interference)"""
+    cls = _failure_class(case)
+    if cls is None:
+        return None
     cur = case
     changed = True
     while changed:
@@ -488,9 +503,6 @@ def shrink(case, still_fails):
                 continue
             cand = dict(cur)
             cand["ops"] = cur["ops"][:k] + cur["ops"][k + 1:]
-            try:
-                if still_fails(cand):
-                    cur, changed = cand, True
-            except Exception:  # noqa: BLE001
-                pass
+            if _failure_class(cand) == cls:
+                cur, changed = cand, True
     return cur if cur is not case else None
